@@ -100,6 +100,17 @@ pub fn generate(seed: u64, thorough: bool, sink: &mut Sink) -> Vec<String> {
       sink.hit(&format!("{}:{}:{}:{}", kind, form, if step == "-" { "nostep" } else { "step" }, mode));
     }
   }
+  // f32 operands that are not dyadic (tenths): the span b - a is not representable in f32, so a count computed from
+  // a span rounded in f32 differs from the count of the terms before the end; stepped forms, both endings
+  for _ in 0..(per_kind * 2) {
+    let a = (rng.range(-30, 60) as f64) / 10.0;
+    let b = a + (rng.range(1, 45) as f64) / 10.0;
+    let s = (*rng.pick(&[1i64, 2, 3, 4, 5, 7, 1, 2])) as f64 / 10.0;
+    let form = if rng.chance(1, 2) { "incl" } else { "excl" };
+    let mode = *rng.pick(&["var", "mut", "vvm", "mvv"]);
+    cases.push(format!("range\tf32\t{}\t{}\t{}\t{}\t{}", form, fbits("f32", a), fbits("f32", s), fbits("f32", b), mode));
+    sink.hit(&format!("f32-tenths:{}", form));
+  }
   // kinds without a range implementation
   for (a, s, b, f) in [("1/2", "-", "5/2", "excl"), ("1/2", "-", "5/2", "incl"), ("1/4", "1/2", "2/1", "incl"), ("3/1", "-", "1/1", "excl")] { cases.push(format!("range\tr64\t{}\t{}\t{}\t{}\tvar", f, a, s, b)); sink.hit("r64"); }
   cases
